@@ -296,6 +296,49 @@ pub open spec fn entry_ok(x: ValidSubElementInfo, n: ElementRaw, v: u32) -> bool
     &&& x.is_allowed <==> exists|a: usize, b: usize| n.calc_post(x.element_name, v, Ok((a, b)))
 }
 
+// ---- sort (C14): the node after sorting
+impl Element {
+    // the recursive sort of a child goes through the child's own lock: its effect is inside the child, not in this node
+    #[verifier::external_body]
+    pub fn vx_sort_child(&self, version: AutosarVersion) { unimplemented!() }
+}
+pub open spec fn pair_elems(s: Seq<(Vec<usize>, Element)>) -> Seq<Element> { s.map(|i: int, x: (Vec<usize>, Element)| x.1) }
+pub open spec fn content_elems(c: Seq<ElementContent>) -> Seq<Element>
+    decreases c.len()
+{
+    if c.len() == 0 { Seq::empty() }
+    else { match c[c.len() - 1] { ElementContent::Element(e) => content_elems(c.drop_last()).push(e), ElementContent::CharacterData(_) => content_elems(c.drop_last()) } }
+}
+// p is a permutation of 0..n
+pub open spec fn is_perm(p: Seq<int>, n: int) -> bool {
+    p.len() == n && (forall|k: int| 0 <= k < n ==> 0 <= #[trigger] p[k] < n) && (forall|i: int, j: int| 0 <= i < j < n ==> #[trigger] p[i] != #[trigger] p[j])
+}
+// `sorting_vec.sort_by(|(ia, a), (ib, b)| ia.cmp(ib).then(a.cmp(b)))`: std's stable sort permutes, and the result is ordered by the
+// first key (ASSUMED: slice::sort_by with a comparator that is a total order -- unit cmp / C14 -- yields a sorted permutation)
+#[verifier::external_body]
+pub fn vx_sort_pairs(v: &mut Vec<(Vec<usize>, Element)>)
+    ensures final(v)@.len() == old(v)@.len(),
+            exists|p: Seq<int>| #[trigger] is_perm(p, old(v)@.len() as int) && forall|k: int| 0 <= k < p.len() ==> #[trigger] final(v)@[k] == old(v)@[p[k]],
+            forall|i: int, j: int| 0 <= i < j < final(v)@.len() ==> lex_le(#[trigger] final(v)@[i].0@, #[trigger] final(v)@[j].0@)
+{ unimplemented!() }
+impl ElementRaw {
+    // every child element is listed for the version or for some version (what the .unwrap() in sort needs; the loader and the editor
+    // only ever store such children)
+    pub open spec fn kids_known(&self, v: u32) -> bool {
+        forall|i: int| 0 <= i < self.content@.len() ==> (#[trigger] self.content@[i] matches ElementContent::Element(e) ==>
+            find_from(self.t(), 0, name_of(e), v) is Some || find_from(self.t(), 0, name_of(e), u32::MAX) is Some)
+    }
+    pub open spec fn only_elements(&self) -> bool { forall|i: int| 0 <= i < self.content@.len() ==> #[trigger] self.content@[i] is Element }
+    pub open spec fn sortable(&self) -> bool {
+        (t_dt(self.t()).mode == ContentMode::Sequence || t_dt(self.t()).mode == ContentMode::Choice || t_dt(self.t()).mode == ContentMode::Bag)
+        && !t_el(self.elemtype.def as int).ordered && self.content@.len() > 1
+    }
+}
+// the index list the sort uses for a child handle
+pub open spec fn key_of(t: int, e: Element, v: u32) -> Seq<usize> {
+    match find_from(t, 0, name_of(e), v) { Some((_, p)) => p, None => match find_from(t, 0, name_of(e), u32::MAX) { Some((_, p)) => p, None => Seq::empty() } }
+}
+
 pub open spec fn list_ok(r: Seq<ValidSubElementInfo>, n: ElementRaw, ver: AutosarVersion) -> bool {
     forall|i: int| 0 <= i < r.len() ==> entry_ok(#[trigger] r[i], n, ver as u32)
 }
@@ -359,6 +402,15 @@ R39 = [
     (r'let other_elemname = \{\s*(?://[^\n]*\n\s*)*let other_element = other\.0\.read\(\);\s*other_element\.elemname\s*\};', lambda m: 'let other_elemname = other.element_name();', 'R39'),
 ]
 
+R47 = [
+    (r'for ec_elem in &self\.content \{', lambda m: 'let mut vx_c: usize = 0; while vx_c < self.content.len() { let ec_elem = &self.content[vx_c]; vx_c += 1;', 'R18'),
+    (r'for ec in &self\.content \{', lambda m: 'let mut vx_d: usize = 0; while vx_d < self.content.len() { let ec = &self.content[vx_d]; vx_d += 1;', 'R18'),
+    (r'elem\.0\.write\(\)\.sort\(version\);', lambda m: 'elem.vx_sort_child(version);', 'R47'),
+    (r'let \(_, elem_indices\) = self\s*\.elemtype\s*\.find_sub_element\(elem\.element_name\(\), version as u32\)\s*\.or_else\(\|\| self\.elemtype\.find_sub_element\(elem\.element_name\(\), u32::MAX\)\)\s*\.unwrap\(\);',
+     lambda m: 'let vx_name = elem.element_name(); let (_, elem_indices) = (match self.elemtype.find_sub_element(vx_name, version as u32) { Some(vx_v) => Some(vx_v), None => self.elemtype.find_sub_element(vx_name, u32::MAX) }).unwrap();', 'R39'),
+    (r'sorting_vec\.sort_by\(\|\(elem_indices_a, elem_a\), \(elem_indices_b, elem_b\)\| \{\s*elem_indices_a\.cmp\(elem_indices_b\)\.then\(elem_a\.cmp\(elem_b\)\)\s*\}\);', lambda m: 'vx_sort_pairs(&mut sorting_vec);', 'R47'),
+    (r'for \(_, elem\) in sorting_vec \{', lambda m: 'let mut vx_s: usize = 0; while vx_s < sorting_vec.len() { let elem = sorting_vec[vx_s].1; vx_s += 1;', 'R47'),
+]
 F_E = 'autosar-data/src/element.rs'
 IMPL_E = r'impl Element'
 R46 = [
@@ -368,7 +420,7 @@ R46 = [
      lambda m: 'let mut vx_it = etype.sub_element_spec_iter(); loop { let (element_name, vx_et, version_mask, named_mask) = match vx_it.next() { Some(vx_x) => vx_x, None => { break; } };', 'R44'),
 ]
 
-LEAVES = ['sub_element_spec_iter', 'SubelemDefinitionsIter.next', 'compatible', 'is_named_in_version', 'find_sub_element', 'find_common_group', 'ElementType.content_mode', 'GroupType.content_mode', 'get_sub_element_multiplicity']
+LEAVES = ['is_ordered', 'sub_element_spec_iter', 'SubelemDefinitionsIter.next', 'compatible', 'is_named_in_version', 'find_sub_element', 'find_common_group', 'ElementType.content_mode', 'GroupType.content_mode', 'get_sub_element_multiplicity']
 
 V = 'version as u32'
 UNIQ = '''proof {
@@ -476,6 +528,43 @@ pub struct AutosarModel { pub opaque: u64 }
                   ensures=['(r is Err && *final(self) == *old(self)) || exists|a: usize, b: usize| old(self).calc_post(name_of(*other), %s, Ok((a, b))) && a <= position <= b && copied_inner_post(*old(self), *final(self), *other, position, %s, r)' % (V, V),
                            'forall|a: usize, b: usize| old(self).calc_post(name_of(*other), %s, Ok((a, b))) && !(a <= position <= b) ==> r is Err && *final(self) == *old(self)' % V],
                   proofs=[dict(after=r'let \(start_pos, end_pos\) = self\.calc_element_insert_range\(other_elemname, version\)\?;', text=UNIQ % ('other_elemname', 'other_elemname'))]),
+           FnSpec('sort', F, impl=IMPL_R, body_sub=R47,
+                  requires=['old(self).elemtype.typ < n_dt()', 'old(self).elemtype.def < n_el()', 'old(self).kids_known(version as u32)'],
+                  ensures=['final(self).elemname == old(self).elemname && final(self).elemtype == old(self).elemtype',
+                           # where reordering is not permitted nothing moves
+                           '!old(self).sortable() ==> final(self).content@ == old(self).content@',
+                           # otherwise: only element children remain, they are a permutation of the old element children, in the order of the file version
+                           'old(self).sortable() ==> exists|p: Seq<int>| #[trigger] is_perm(p, content_elems(old(self).content@).len() as int) && final(self).content@.len() == p.len() && forall|k: int| 0 <= k < p.len() ==> #[trigger] final(self).content@[k] == ElementContent::Element(content_elems(old(self).content@)[p[k]])',
+                           'old(self).sortable() ==> forall|i: int, j: int| 0 <= i < j < final(self).content@.len() ==> lex_le(key_of(old(self).t(), (#[trigger] final(self).content@[i])->Element_0, version as u32), key_of(old(self).t(), (#[trigger] final(self).content@[j])->Element_0, version as u32))'],
+                  loops={0: dict(invariant=['vx_c <= self.content.len()', 'self.content@ == old(self).content@', 'self.elemtype == old(self).elemtype', 'self.elemname == old(self).elemname', 'wf_tables()', 'self.elemtype.typ < n_dt()', 'self.kids_known(version as u32)',
+                                            'pair_elems(sorting_vec@) =~= content_elems(self.content@.subrange(0, vx_c as int))',
+                                            'forall|k: int| 0 <= k < sorting_vec@.len() ==> (#[trigger] sorting_vec@[k]).0@ == key_of(self.t(), sorting_vec@[k].1, version as u32)'],
+                                 decreases='self.content.len() - vx_c'),
+                         1: dict(invariant=['vx_s <= sorting_vec.len()', 'self.elemtype == old(self).elemtype', 'self.elemname == old(self).elemname', 'self.content@.len() == vx_s',
+                                            'forall|k: int| 0 <= k < vx_s ==> #[trigger] self.content@[k] == ElementContent::Element(sorting_vec@[k].1)',
+                                            'sorting_vec@.len() == before_sort.len()', 'is_perm(perm, before_sort.len() as int)', 'forall|k: int| 0 <= k < perm.len() ==> #[trigger] sorting_vec@[k] == before_sort[perm[k]]',
+                                            'pair_elems(before_sort) =~= content_elems(old(self).content@)',
+                                            'forall|k: int| 0 <= k < sorting_vec@.len() ==> (#[trigger] sorting_vec@[k]).0@ == key_of(old(self).t(), sorting_vec@[k].1, version as u32)',
+                                            'forall|i: int, j: int| 0 <= i < j < sorting_vec@.len() ==> lex_le(#[trigger] sorting_vec@[i].0@, #[trigger] sorting_vec@[j].0@)'],
+                                 decreases='sorting_vec.len() - vx_s'),
+                         2: dict(invariant=['vx_d <= self.content.len()', 'self.content@ == old(self).content@', 'self.elemtype == old(self).elemtype', 'self.elemname == old(self).elemname'], decreases='self.content.len() - vx_d')},
+                  proofs=[dict(at='body_start', text='proof { axiom_tables(); }'),
+                          dict(after=r'vx_c \+= 1;', indent=True, text='''proof {
+    let c = self.content@; let k = vx_c as int;
+    assert(c.subrange(0, k).drop_last() =~= c.subrange(0, k - 1));
+    assert(c.subrange(0, k)[k - 1] == c[k - 1]);
+}'''),
+                          dict(before=r'^\s*vx_sort_pairs\(&mut sorting_vec\);', text='''proof { assert(self.content@.subrange(0, self.content@.len() as int) =~= self.content@); }
+let ghost before_sort = sorting_vec@;'''),
+                          dict(after=r'vx_sort_pairs\(&mut sorting_vec\);', text='''let ghost perm: Seq<int> = choose|p: Seq<int>| #[trigger] is_perm(p, before_sort.len() as int) && forall|k: int| 0 <= k < p.len() ==> #[trigger] sorting_vec@[k] == before_sort[p[k]];
+proof {
+    assert(is_perm(perm, before_sort.len() as int) && forall|k: int| 0 <= k < perm.len() ==> #[trigger] sorting_vec@[k] == before_sort[perm[k]]);
+    assert(pair_elems(before_sort) =~= content_elems(old(self).content@));
+    assert forall|k: int| 0 <= k < sorting_vec@.len() implies (#[trigger] sorting_vec@[k]).0@ == key_of(old(self).t(), sorting_vec@[k].1, version as u32) by {
+        assert(sorting_vec@[k] == before_sort[perm[k]]);
+    }
+}'''),
+                          ]),
            FnSpec('list_valid_sub_elements', F_E, impl=IMPL_E, ret='r', body_sub=R46, requires=['node_of(*self).elemtype.typ < n_dt()'],
                   ensures=['r@.len() == 0 || exists|ver: AutosarVersion| #[trigger] list_ok(r@, node_of(*self), ver)'],
                   loops={0: dict(invariant=['wf_tables()', 'it_inv(vx_it.type_id_stack@, vx_it.indices@)', 'etype == node_of(*self).elemtype', 'etype.typ < n_dt()',
